@@ -1304,9 +1304,9 @@ impl ASN1Value {
                         integer_type: i.int_type(),
                         value,
                     };
-                } else if let Some(ToplevelDefinition::Value(tld)) = tlds.get(identifier) {
+                } else if let Some(value) = resolve_value_reference(tlds, identifier) {
                     // Not a named number: a reference to another value assignment
-                    *self = tld.value.clone();
+                    *self = value.clone();
                     self.link_with_type(tlds, ty, type_name)?;
                 }
                 Ok(())
@@ -1336,9 +1336,9 @@ impl ASN1Value {
                         enumerated: tld.name().clone(),
                         enumerable: identifier.clone(),
                     };
-                } else if let Some(ToplevelDefinition::Value(tld)) = tlds.get(identifier) {
+                } else if let Some(value) = resolve_value_reference(tlds, identifier) {
                     // Not an enumeral: a reference to another value assignment
-                    *self = tld.value.clone();
+                    *self = value.clone();
                     self.link_with_type(tlds, ty, type_name)?;
                 }
                 Ok(())
@@ -1351,8 +1351,8 @@ impl ASN1Value {
                     identifier,
                 },
             ) => {
-                if let Some(ToplevelDefinition::Value(tld)) = tlds.get(identifier) {
-                    *self = tld.value.clone();
+                if let Some(value) = resolve_value_reference(tlds, identifier) {
+                    *self = value.clone();
                     self.link_with_type(tlds, ty, type_name)?;
                 }
                 Ok(())
@@ -1637,6 +1637,30 @@ impl ASN1Value {
         }
         Ok(())
     }
+}
+
+/// Follows a chain of value references to the value assignment it ends in.
+/// Returns `None` if the identifier does not name a value assignment or if
+/// the references are circular.
+fn resolve_value_reference<'a>(
+    tlds: &'a BTreeMap<String, ToplevelDefinition>,
+    identifier: &str,
+) -> Option<&'a ASN1Value> {
+    let mut current = identifier;
+    for _ in 0..=tlds.len() {
+        match tlds.get(current) {
+            Some(ToplevelDefinition::Value(tld)) => match &tld.value {
+                ASN1Value::ElsewhereDeclaredValue {
+                    module: None,
+                    parent: None,
+                    identifier,
+                } => current = identifier,
+                value => return Some(value),
+            },
+            _ => return None,
+        }
+    }
+    None
 }
 
 fn bit_string_value_from_named_bits(
